@@ -28,7 +28,11 @@ pub struct PairSnap {
 }
 
 pub fn cert_index(w: &World, cert_id: &str) -> Option<usize> {
-	w.plan.config.certificates.iter().position(|c| toml_emit::cert_id(c) == cert_id)
+	w.plan
+		.config
+		.certificates
+		.iter()
+		.position(|c| toml_emit::cert_id(c) == cert_id)
 }
 
 pub fn unix_of(t: &openssl::asn1::Asn1TimeRef) -> i64 {
@@ -55,7 +59,10 @@ pub fn pair(w: &World, cert_id: &str) -> PairSnap {
 			if let Some(leaf) = chain.first() {
 				s.crt_parses = true;
 				s.n_certs = chain.len();
-				s.leaf_pub = leaf.public_key().and_then(|k| k.public_key_to_der()).unwrap_or_default();
+				s.leaf_pub = leaf
+					.public_key()
+					.and_then(|k| k.public_key_to_der())
+					.unwrap_or_default();
 				s.not_after = unix_of(leaf.not_after());
 				if let Some(sans) = leaf.subject_alt_names() {
 					for g in sans.iter() {
@@ -102,7 +109,9 @@ pub fn accounts(w: &World) -> Vec<Option<AccountSnap>> {
 		.map(|(name, h)| {
 			let g = h.try_read()?;
 			let a = &*g;
-			let kh = |k: &crate::account::AccountKey| sha256_hex(&k.key.private_key_to_der().unwrap_or_default());
+			let kh = |k: &crate::account::AccountKey| {
+				sha256_hex(&k.key.private_key_to_der().unwrap_or_default())
+			};
 			let mut eps = BTreeMap::new();
 			for (k, e) in a.endpoints.iter() {
 				eps.insert(
